@@ -50,6 +50,8 @@ pub enum KeyType {
     Rsa2048,
     Rsa3072,
     EcP256,
+    /// RSA-2048 with a fixed serial number and the common name given: two such identities differ only in their key
+    Rsa2048Twin,
     /// Ed25519 whose raw public key starts with these bytes (the key is the whole BIT STRING content, so its
     /// first byte is the low-order byte of the number CredSSP increments)
     Ed25519Prefix(&'static [u8]),
@@ -67,7 +69,7 @@ pub struct Identity {
 
 fn make_identity(kt: KeyType, cn: &str, expired: bool) -> Identity {
     let key = match kt {
-        KeyType::Rsa2048 => PKey::from_rsa(Rsa::generate(2048).unwrap()).unwrap(),
+        KeyType::Rsa2048 | KeyType::Rsa2048Twin => PKey::from_rsa(Rsa::generate(2048).unwrap()).unwrap(),
         KeyType::Rsa3072 => PKey::from_rsa(Rsa::generate(3072).unwrap()).unwrap(),
         KeyType::EcP256 => {
             let g = EcGroup::from_curve_name(Nid::X9_62_PRIME256V1).unwrap();
@@ -86,7 +88,11 @@ fn make_identity(kt: KeyType, cn: &str, expired: bool) -> Identity {
     let mut b = X509::builder().unwrap();
     b.set_version(2).unwrap();
     let mut serial = BigNum::new().unwrap();
-    serial.rand(64, MsbOption::MAYBE_ZERO, false).unwrap();
+    if matches!(kt, KeyType::Rsa2048Twin) {
+        serial = BigNum::from_u32(0x0123_4567).unwrap();
+    } else {
+        serial.rand(64, MsbOption::MAYBE_ZERO, false).unwrap();
+    }
     b.set_serial_number(&serial.to_asn1_integer().unwrap()).unwrap();
     b.set_subject_name(&name).unwrap();
     b.set_issuer_name(&name).unwrap();
@@ -138,8 +144,15 @@ static IDS: OnceLock<Vec<Arc<Identity>>> = OnceLock::new();
 static SPECIAL: OnceLock<Vec<Arc<Identity>>> = OnceLock::new();
 /// identities 5, 6, 7: Ed25519 keys whose low-order bytes are ff / fe / ff ff (carry cases of the +1)
 pub const SPECIAL_IDENTITIES: [usize; 3] = [5, 6, 7];
+/// identities 8 and 9: same issuer, subject and serial number, different RSA keys
+pub const TWIN_IDENTITIES: [usize; 2] = [8, 9];
+static TWINS: OnceLock<Vec<Arc<Identity>>> = OnceLock::new();
 
 pub fn identity(i: usize) -> Arc<Identity> {
+    if i == 8 || i == 9 {
+        let v = TWINS.get_or_init(|| vec![Arc::new(make_identity(KeyType::Rsa2048Twin, "rdpverif-twin", false)), Arc::new(make_identity(KeyType::Rsa2048Twin, "rdpverif-twin", false))]);
+        return v[i - 8].clone();
+    }
     if i >= 5 && i < 8 {
         let v = SPECIAL.get_or_init(|| {
             vec![
@@ -169,6 +182,7 @@ pub fn prewarm(special: bool) {
     let _ = identity(0);
     if special {
         let _ = identity(SPECIAL_IDENTITIES[0]);
+        let _ = identity(TWIN_IDENTITIES[0]);
     }
 }
 
